@@ -25,8 +25,10 @@ void h_run(Case &c) {
   const char *syn = d.pick(syns); bool misc = d.chance(1, 2); c.descf("A: synthetic=\"%s\"%s", syn, misc ? " Misc kept" : "");
   hwloc_topology_t A; hwloc_topology_init(&A); hwloc_topology_set_synthetic(A, syn); if (misc) hwloc_topology_set_type_filter(A, HWLOC_OBJ_MISC, HWLOC_TYPE_FILTER_KEEP_ALL); CHECK(c, hwloc_topology_load(A) == 0, "setup", "load failed");
   { int n = d.range(0, 3); for (int i = 0; i < n; i++) hwloc_topology_insert_misc_object(A, sel_obj(d, A), "miscA"); }
-  for (auto o : all_objs(A)) { if (d.chance(1, 3) && !o->name) o->name = strdup(d.chance(1, 2) ? "n<&\"x" : "nm"); int k = d.range(0, 2); for (int i = 0; i < k; i++) { char nm[8]; snprintf(nm, 8, "k%d", i); /* unique names per object: duplicates are finding F-C16-b */ hwloc_obj_add_info(o, nm, d.chance(1, 2) ? "v&1" : "v2"); } }
-  hwloc_modify_infos(hwloc_topology_get_infos(A), HWLOC_MODIFY_INFOS_OP_ADD, "tk", "tv0");
+  int nlong = 0;   // info values of several thousand characters: diffs that do not fit the exporters' first buffer
+  for (auto o : all_objs(A)) { if (d.chance(1, 3) && !o->name) o->name = strdup(d.chance(1, 2) ? "n<&\"x" : "nm"); int k = d.range(0, 2); bool samename = k == 2 && d.chance(1, 3);   /* two pairs with one name are fine as long as their values differ: only identical pairs are finding F-C16-b */
+    for (int i = 0; i < k; i++) { char nm[8]; snprintf(nm, 8, "k%d", samename ? 0 : i); std::string val = samename ? (i ? "v2" : "v&1") : (d.chance(1, 2) ? "v&1" : "v2"); if (d.chance(1, 12)) { val.append((size_t)d.range(3000, 9000), 'x'); val += std::to_string(i); nlong++; } hwloc_obj_add_info(o, nm, val.c_str()); } if (samename) c.cls("annot:same-info-name-twice"); }
+  hwloc_modify_infos(hwloc_topology_get_infos(A), HWLOC_MODIFY_INFOS_OP_ADD, "tk", "tv0"); if (nlong) c.cls("annot:long-info-values");
   bool extras = d.chance(1, 3);
   if (extras) {  // something for the memattr/distances comparison to look at
     hwloc_obj_t o2[2] = {hwloc_get_obj_by_type(A, HWLOC_OBJ_PU, 0), hwloc_get_obj_by_type(A, HWLOC_OBJ_PU, 1)}; hwloc_uint64_t v[4] = {1, 2, 3, 4};
@@ -37,7 +39,7 @@ void h_run(Case &c) {
   hwloc_topology_diff_t df = (hwloc_topology_diff_t)0x1; int r = hwloc_topology_diff_build(A, B, 0, &df);
   CHECK(c, r == 0 && df == NULL, "build_identical", "build(A, dup(A)) = %d with diff %p", r, (void *)df);
   errno = 0; CHECK(c, hwloc_topology_diff_build(A, B, 1UL << d.range(0, 5), &df) == -1 && errno == EINVAL, "build_flags", "non-zero flags accepted");
-  int nrep = 0, nnon = 0; std::set<uint64_t> repobjs; std::string why;
+  int nrep = 0, nnon = 0; std::set<uint64_t> repobjs, nonrep_objs; std::string why;
   for (size_t e = 0; e < c.ops.size(); e++) {
     Draw &o = c.ops[e]; int k = o.range(0, 11); hwloc_obj_t x = sel_obj(o, B);
     if (k <= 2) { if (x->name) { std::string nn = std::string(x->name) + "+"; free(x->name); x->name = strdup(nn.c_str()); nrep++; repobjs.insert(x->gp_index); c.descf("\n | rename %s#%u", hwloc_obj_type_string(x->type), x->logical_index); } }
@@ -45,7 +47,7 @@ void h_run(Case &c) {
     else if (k == 5) { hwloc_obj_t n = sel_type(o, B, HWLOC_OBJ_NUMANODE); uint64_t dl = (uint64_t)o.range(1, 1000) * 4096; bool sub = o.chance(1, 2) && n->attr->numanode.local_memory >= dl;
       if (sub) { n->attr->numanode.local_memory -= dl; for (hwloc_obj_t p = n; p; p = p->parent) p->total_memory -= dl; } else { n->attr->numanode.local_memory += dl; for (hwloc_obj_t p = n; p; p = p->parent) p->total_memory += dl; } nrep++; repobjs.insert(n->gp_index); c.descf("\n | local_memory of node#%u %s%llu", n->logical_index, sub ? "-" : "+", (unsigned long long)dl); }
     else if (k == 6) { struct hwloc_infos_s *ti = hwloc_topology_get_infos(B); for (unsigned i = 0; i < ti->count; i++) if (!strcmp(ti->array[i].name, "tk")) { std::string nv = std::string(ti->array[i].value) + "!"; free(ti->array[i].value); ti->array[i].value = strdup(nv.c_str()); nrep++; repobjs.insert(0); c.desc("\n | topology info value"); } }
-    else if (k <= 8) { int w = o.range(0, 5);
+    else if (k <= 8) { int w = o.range(0, 5); if ((w == 0 || w == 3 || w == 4) && !nonrep_objs.insert(x->gp_index).second) continue;   /* one such edit per object: two of them can cancel each other (name set then unset, pair added then removed) */
       if (w == 0) { hwloc_obj_add_info(x, "extra", "1"); nnon++; why += "add-info "; }
       else if (w == 1) { if (hwloc_topology_insert_misc_object(B, x, "miscB")) { nnon++; why += "insert-misc "; } }   // fails under the default Misc filter (pitfall 9.20)
       else if (w == 2) { hwloc_obj_set_subtype(B, x, "st"); nnon++; why += "subtype "; }
